@@ -692,7 +692,28 @@ func c20Child(t *testing.T, outPath string) {
 	defer f.Close()
 	line := func(s string) { f.WriteString(s + "\n") }
 	nBase := c20Env("VERIF_N", 400)
+	nNested := c20Env("VERIF_C20_NESTED", nBase/3)
 	for id := from; id < to; id++ {
+		if id >= nBase+nNested {
+			// scale family (zz_verif_c20_scale_test.go)
+			sc := c20GenScale(seed, id-nBase-nNested, c20Env("VERIF_C20_SCALE_MAXK", 100001), c20Env("VERIF_C20_SCALE_BUDGET", 40000))
+			line("BEGIN\t" + strconv.Itoa(id))
+			line("SCIN\t" + strconv.Itoa(id) + "\t" + sc.describe())
+			done := make(chan c20ScaleResult, 1)
+			go func() { done <- c20RunScale(sc) }()
+			select {
+			case r := <-done:
+				for _, l := range c20ScaleLines(sc, id, r, c20Env("VERIF_C20_SCALE_REPLAY", 9000)) {
+					line(l)
+				}
+				line("END\t" + strconv.Itoa(id))
+			case <-time.After(120 * time.Second):
+				line("ORACLE\thang\t" + strconv.Itoa(id) + "\t" + sc.describe())
+				f.Close()
+				os.Exit(3)
+			}
+			continue
+		}
 		if id >= nBase {
 			// nested family (zz_verif_c20_nested_test.go)
 			ns := c20GenNested(seed, id-nBase)
@@ -755,6 +776,7 @@ func TestVerifC20(t *testing.T) {
 	}
 	n := c20Env("VERIF_N", 400)
 	n += c20Env("VERIF_C20_NESTED", n/3) // ids >= VERIF_N: the nested family
+	n += c20Env("VERIF_C20_SCALE", 0)    // ids >= VERIF_N + VERIF_C20_NESTED: the scale family
 	if err := os.WriteFile(outPath, nil, 0o644); err != nil {
 		t.Fatal(err)
 	}
